@@ -22,6 +22,8 @@ mod stabilisation_num;
 mod state;
 mod syntax;
 mod var;
+#[cfg(cormacrelf_incremental_rs_verif)]
+mod verif_audit;
 
 mod public;
 use boxes::SmallBox;
